@@ -32,14 +32,18 @@ def stop_of(spec):
     return float(Fraction(str(start)) + n * Fraction(str(dt)))
 
 
-def make_bptk(spec, mode, env):
+def make_bptk(spec, mode, env, siblings=False):
     import BPTK_Py
     start, dt, n = spec
     m = scen.base_model(start, stop_of(spec), dt, name="c09")
     b = BPTK_Py.bptk()
     b.register_scenario_manager({"sm": {"model": m}})
     k = scen.sym_const("k0") if mode == "sym" else float(env.get("k0", 1.5))
-    b.register_scenarios(scenario_manager="sm", scenarios={"A": {"constants": {"k": k}}})
+    sc = {"A": {"constants": {"k": k}}}
+    if siblings:
+        # A sits between two siblings of the same manager (one registered before it, one after)
+        sc = {"S0": {"constants": {"k": new_c(mode, env, "ks0")}}, "A": sc["A"], "S1": {}}
+    b.register_scenarios(scenario_manager="sm", scenarios=sc)
     return b, {"k": k}
 
 
@@ -74,7 +78,9 @@ def channels(tier):
           "rest:session-results", "rest:flat-session-results", "rest:run-step-settings@1", "rest:run-steps-settings@2",
           # sequences of channels on ONE bptk / server instance: what came before must not matter
           "after-batch:session:steps", "after-batch:session:settings@1", "after-session:batch:df", "after-session:session:settings@last",
-          "after-batch:batch:json", "rest-after-run:run-step-settings@1"]
+          "after-batch:batch:json", "rest-after-run:run-step-settings@1",
+          # a session over three scenarios of the manager: settings addressed to the siblings must not show in A's steps
+          "session:siblings-settings", "rest:siblings-settings"]
     return ch
 
 
@@ -106,6 +112,21 @@ def run_channel(spec, channel, mode, env=None):
             if fmt == "json":
                 r = scen.loads(r)
             return scen.from_dict(r, "sm", "A"), changes, consts
+        if channel == "session:siblings-settings":
+            b, consts = make_bptk(spec, mode, env, siblings=True)
+            b.begin_session(scenarios=["S0", "A", "S1"], scenario_managers=["sm"], equations=scen.EQS, starttime=start, dt=dt)
+            steps = []
+            for i in range(nlab + 1):
+                st = None
+                if i == 1:
+                    st = {"sm": {"S0": {"constants": {"c": new_c(mode, env, "c_s0"), "k": new_c(mode, env, "k_s0")}}}}
+                elif i == 2:
+                    st = {"sm": {"S1": {"constants": {"c": new_c(mode, env, "c_s1")}}}}
+                r = b.run_step(settings=st)
+                if isinstance(r, dict) and r.get("msg"):
+                    break
+                steps.append(scen.from_step(r, "sm", "A"))
+            return scen.merge_steps(steps), changes, consts
         b.begin_session(scenarios=["A"], scenario_managers=["sm"], equations=scen.EQS, starttime=start, dt=dt)
         steps = []
         at = None
@@ -143,7 +164,7 @@ def run_channel(spec, channel, mode, env=None):
     holder = {}
 
     def fac():
-        b, consts = make_bptk(spec, mode, env)
+        b, consts = make_bptk(spec, mode, env, siblings=(channel == "rest:siblings-settings"))
         holder["consts"] = consts
         return b
     app = BptkServer(__name__, fac)
@@ -157,7 +178,8 @@ def run_channel(spec, channel, mode, env=None):
         channel = "rest:" + channel[len("rest-after-run:"):]
         # a batch run on the instance's own bptk object, then the session
         app._instance_manager._instances[inst]["instance"].run_scenarios(scenarios=["A"], scenario_managers=["sm"], equations=scen.EQS)
-    post("/%s/begin-session" % inst, {"scenario_managers": ["sm"], "scenarios": ["A"], "equations": scen.EQS})
+    names = ["S0", "A", "S1"] if channel == "rest:siblings-settings" else ["A"]
+    post("/%s/begin-session" % inst, {"scenario_managers": ["sm"], "scenarios": names, "equations": scen.EQS})
     steps = []
 
     def take(resp):
@@ -180,6 +202,10 @@ def run_channel(spec, channel, mode, env=None):
     elif channel == "rest:step+stream":
         take(post("/%s/run-step" % inst))
         take(post("/%s/stream-steps" % inst))
+    elif channel == "rest:siblings-settings":
+        take(post("/%s/run-step" % inst))
+        take(post("/%s/run-step" % inst, {"settings": {"sm": {"S0": {"constants": {"c": new_c(mode, env, "c_s0"), "k": new_c(mode, env, "k_s0")}}}}}))
+        take(post("/%s/run-steps" % inst, {"numberSteps": nlab - 2, "settings": {"sm": {"S1": {"constants": {"c": new_c(mode, env, "c_s1")}}}}}))
     elif channel == "rest:run-step-settings@1":
         take(post("/%s/run-step" % inst))
         v = new_c(mode, env, "c_new")
